@@ -8,6 +8,9 @@ VERIF = os.path.dirname(os.path.dirname(os.path.abspath(__file__)))
 REPO = os.environ.get('VERIF_REPO', '/repo')
 SPECS = os.path.join(VERIF, 'specs')
 HARNESS = os.path.join(VERIF, 'harness')
+BUILD = os.environ.get('VERIF_BUILD', 'build')          # build directory name under harness/ (seed testing uses its own)
+RUNROOT = os.environ.get('VERIF_RUNROOT', os.path.join(VERIF, 'run'))
+SCRATCH = REPO != '/repo'                                # running against a scratch copy: never touch evidence/
 NCPU = os.cpu_count() or 4
 JAVA = ['java', '-Xss256m', '-XX:+UseParallelGC', '-DTLA-Library=' + SPECS, '-cp',
         '/opt/veriftools/tla/tla2tools.jar:/opt/veriftools/tla/CommunityModules-deps.jar']
@@ -25,7 +28,7 @@ class Ctx:
     def __init__(self, pid, tier, seed, replay=None):
         self.id, self.tier, self.seed, self.replay = pid, tier, seed, replay
         self.t0 = time.time()
-        self.dir = os.path.join(VERIF, 'run', '%s-%s' % (pid, tier))
+        self.dir = os.path.join(RUNROOT, '%s-%s' % (pid, tier))
         if not replay:
             shutil.rmtree(self.dir, ignore_errors=True)
         os.makedirs(self.dir, exist_ok=True)
@@ -44,6 +47,7 @@ class Ctx:
         self.nontrivial = set()
         self.exhaustive = None
         self.rule = ''
+        self.own = None        # clauses decided by this property (None = all); others are reported as notes only
 
     @property
     def thorough(self):
@@ -52,13 +56,13 @@ class Ctx:
     # ---------------------------------------------------------------- build
     def build(self, targets, timeout=1500):
         t = time.time()
-        cmd = ['make', '-C', HARNESS, '-j%d' % NCPU, 'REPO=' + REPO] + ['build/' + x for x in targets]
+        cmd = ['make', '-C', HARNESS, '-j%d' % NCPU, 'REPO=' + REPO, 'B=' + BUILD] + [BUILD + '/' + x for x in targets]
         p = subprocess.run(cmd, stdout=subprocess.PIPE, stderr=subprocess.STDOUT, text=True, timeout=timeout)
         if p.returncode != 0:
             log(p.stdout[-6000:])
             raise Infra('harness build failed: ' + ' '.join(targets))
         log('[build] %s in %.1fs' % (' '.join(targets), time.time() - t))
-        return [os.path.join(HARNESS, 'build', x) for x in targets]
+        return [os.path.join(HARNESS, BUILD, x) for x in targets]
 
     def try_compile(self, name, source, flags=(), timeout=600):
         """Compile probe: returns (ok, tail of compiler output)."""
@@ -208,6 +212,11 @@ class Ctx:
     def finish(self, level='model_checking'):
         findings = load_findings()
         unlisted, listed = [], {}
+        if self.own is not None:
+            other = [b for b in self.bad if b['clause'] not in self.own]
+            for sig in sorted({(b['clause'], b['cause'], b['key']) for b in other})[:10]:
+                log('NOTE: clause of another property rejected in this trace (not decided by %s): %s cause=%s key=%s' % ((self.id,) + sig))
+            self.bad = [b for b in self.bad if b['clause'] in self.own]
         for b in self.bad:
             f = match_finding(findings, self.id, b)
             if f is None:
@@ -221,7 +230,7 @@ class Ctx:
         driftsig = sorted({(d['clause'], d['cause'], d['key']) for d in self.drift})
         for d in driftsig[:20]:
             log('MODEL-DRIFT: property=%s %s cause=%s key=%s (implementation differs from the I_ layer but satisfies P_)' % ((self.id,) + d))
-        vdir = os.path.join(VERIF, 'run', 'violations')
+        vdir = os.path.join(RUNROOT, 'violations')
         reported = 0
         if unlisted:
             os.makedirs(vdir, exist_ok=True)
@@ -256,7 +265,7 @@ class Ctx:
         cov.update(self.extra)
         ev = {'property_id': self.id, 'tier': self.tier, 'seed': self.seed, 'level': level, 'coverage': cov,
               'assumptions': self.assumptions, 'wall_s': round(time.time() - self.t0, 1), 'violations': len(unlisted)}
-        if not self.replay:
+        if not self.replay and not SCRATCH:
             os.makedirs(os.path.join(VERIF, 'evidence'), exist_ok=True)
             tmp = os.path.join(VERIF, 'evidence', self.id + '.json.tmp')
             json.dump(ev, open(tmp, 'w'), indent=1)
